@@ -144,12 +144,10 @@ def gen_cases(ctx, n, **kw):
 
 
 def any_positions_ok(T):
-    """ANY: at most one EXPLICIT tag over it, at most one ANY among the members of a SET, the
-    alternatives of a CHOICE or a run of OPTIONAL members (tag maps admit a single default type)"""
+    """untagged ANY: at most one among the members of a SET, the alternatives of a CHOICE or a run of
+    OPTIONAL members, and not inside or right after such a run (it is the tag map's catch-all)"""
     k = T[0]
     if k in ('imp', 'exp'):
-        if base_desc(T)[0] == 'any' and T[2][0] in ('imp', 'exp'):
-            return False
         return any_positions_ok(T[2])
     if k in ('seqof', 'setof'):
         return any_positions_ok(T[1])
@@ -159,8 +157,7 @@ def any_positions_ok(T):
             return False
         n_any = sum(1 for c in comps if has_any_outer(c))
         if k in ('set', 'choice'):
-            return n_any <= 1
-        # SEQUENCE: no ANY inside or right after a run of OPTIONAL/DEFAULT members
+            return n_any == 0 or (n_any == 1 and len(comps) == 1)
         run = 0
         for (p, ft) in T[1]:
             if p != 'req':
@@ -174,8 +171,8 @@ def any_positions_ok(T):
 
 
 def has_any_outer(T):
-    b = base_desc(T)
-    if b[0] == 'any': return True
+    """an encoding of T may start with any tag at all (untagged ANY, possibly through untagged CHOICEs)"""
+    if T[0] == 'any': return True
     if T[0] == 'choice':
         return any(has_any_outer(a) for a in T[1])
     return False
